@@ -43,6 +43,9 @@ const NAMES: [&str; 4] = ["a", "b", "c", "x"];
 /// quick tier: field b is an always-null field (record R2); the union-typed b (record R) needs the
 /// real union arm and is heavier: see the *_union_field harnesses (thorough)
 const B_IS_UNION: bool = false;
+/// number of (name, value) pairs presented: with 3 fields of which b is omittable, 2 pairs already
+/// cover in-order, out-of-order (c then a), omission, duplicate, unknown and missing-required
+const MAX_PRESENTED: usize = 2;
 
 /// One `serialize_field(name, value)` step.
 ///
@@ -173,7 +176,7 @@ fn reference(n: usize, which: [usize; 3], vals: [i64; 3], b_is_union: bool) -> O
 
 fn symbolic_presentation() -> (usize, [usize; 3], [i64; 3]) {
 	let n: usize = kani::any();
-	kani::assume(n <= 3);
+	kani::assume(n <= MAX_PRESENTED);
 	let which: [usize; 3] = kani::any();
 	kani::assume(which[0] <= 3 && which[1] <= 3 && which[2] <= 3);
 	let vals: [i64; 3] = kani::any();
